@@ -5,3 +5,16 @@ chk("C01", "model_checking",
     "Trees.tla transcribes the placement machine of check_tree and the shape filter as actions and states the declarative definition of a valid prefix arity string; TLC checks Success<=>Valid, soundness of failed-prefix pruning and of the pre-filter for every candidate in {0,1,2}^n (n<=7 quick, n<=9 thorough) and enumerates every labelled tree of the explored (basis, n). Every end state is replayed into the real check_tree / get_allowed_shapes / generate_equations; the code's answers are judged by TLC (TreesJudge.tla) and the tree file is compared line by line (order, multiplicity) with the model's emission order.",
     "Exhaustive inside the stated bounds, nothing sampled. Trusted: TLC, the harness' reading of the tree file format, the MPI stand-in with one rank.",
     "TLA+ model of check_tree/get_allowed_shapes/shape_to_functions; TLC exhaustive; state-graph replay into the code and TLC-judged observations", "5 C01")
+
+chk("C02", "model_checking",
+    "Trees!Infix is the exact token string node_to_string must produce and is compared, for every labelled tree TLC enumerates, with the real function; every line of every generated library becomes one event of a trace judged by Library.tla (alignment of tree and function lists, well-formedness of the tree, and the law class(tree) = class(string read by the generation table) = class(string read by Likelihood.run_sympify)).",
+    "Equality of real functions is decided by projection P1 (24 generic points, 50-digit re-evaluation on mismatch) carried in the events; TLA+ holds the law, alignment and the raw string, not real arithmetic. Exhaustive over the libraries listed in the evidence.",
+    "TLA+ trace specification of the generated library judged by TLC; spec-enumerated trees replayed into node_to_string", "5 C02")
+chk("C03", "model_checking",
+    "Every function line and unique entry of every generated library (shipped bases and verif_* sub-bases through the ESR_VERIF hook) is an event of a trace judged by Library.tla: exactly one unique per function with an in-range match, uniques pairwise distinct with contiguous parameters, per-function files aligned, recorded map exact (function(x; p(theta)) = unique(x; theta) with an independent composer of the file's chain), unrecoverable only with strictly fewer parameters and the same family of curves. Binding self-test: corrupted traces must be rejected.",
+    "P1 decides pointwise equality; family equality of unrecoverable rows by multi-start least squares at 1e-6. Bounded by the libraries generated (listed in the evidence).",
+    "TLA+ trace validation of the library files (Library.tla) with P1 classes and independently composed parameter maps", "5 C03")
+chk("C08", "model_checking",
+    "Trees!Code gives the integers (k, nsym, constants) of a label list; TLC enumerates every well-formed label list up to 5 labels over a vocabulary with integers and several parameters and both aifeyn_complexity and tree_to_aifeyn are compared with the closed form evaluated from those integers; for generated libraries Library.tla checks line alignment and returns the model's code for every line, compared with aifeyn_n.txt.",
+    "P3: closed form evaluated in double precision from exact integers (1e-9). Exhaustive in the vocabulary and over every line of the listed libraries.",
+    "TLA+ definition of the tree code, TLC-enumerated label lists replayed into both APIs; library trace judged by TLC", "5 C08")
